@@ -194,6 +194,13 @@ func genC05(g *Rng, tier string, emit func(Op)) {
 			withKs := *sig
 			withKs.KeyshareP = ksP
 			emit(sigOp(kp.id, &withKs, ms, "foreign-keyshare", "reject"))
+			// contributions that are no group elements: a signature made without a contribution
+			// does not verify with one, whatever number it is
+			for _, p := range []*big.Int{bi(0), new(big.Int).Set(pk.N), new(big.Int).Add(pk.N, pk.R[0]), new(big.Int).Add(new(big.Int).Lsh(pk.N, 1), bi(2)), new(big.Int).Sub(pk.N, bi(1)), bi(2)} {
+				wk := *sig
+				wk.KeyshareP = p
+				emit(sigOp(kp.id, &wk, ms, "foreign-keyshare-out-of-range", "reject").with("fkey", "C05/foreign-keyshare-out-of-range"))
+			}
 			// a signature made *with* a keyshare contribution verifies only with it
 			v := new(big.Int).Lsh(bi(1), pk.Params.Lv-1)
 			v.Add(v, g.bits(int(pk.Params.Lv-1)))
